@@ -31,7 +31,7 @@ from harness import fieldgen as G
 PRELUDE = (D.IMPORTS +
            "import typing as t\n"
            "from typing import Optional, List, Dict, Union\n"
-           "from typedpy import DateString, Function\n"
+           "from typedpy import DateString, Function, ClassReference\n"
            "class ShortCode(String):\n"
            "    def __init__(self, *args, **kwargs):\n"
            "        kwargs.setdefault('minLength', 2)\n"
@@ -43,6 +43,8 @@ PRELUDE = (D.IMPORTS +
            "        super().__init__(*args, **kwargs)\n"
            "def TenToTwenty(*args, **kwargs) -> Field:\n"
            "    return Integer(*args, minimum=10, maximum=20, **kwargs)\n"
+           "def SmallInt() -> Field:\n"
+           "    return Integer(minimum=0, maximum=9)\n"
            "class Mx:\n"
            "    def hello(self):\n"
            "        return 1\n")
@@ -533,3 +535,144 @@ def mro_clauses(prog, ns, report, base_values=None):
                            {"class": cls.__name__, "field": n, "value": repr(v)})
                     break
     return n_eval
+
+
+# ------------------------------------------------------------------ 3. name-fault lattice
+
+NAME_PRELUDE = ("class Address(Structure):\n    street: String\n    num: Integer = 1\n"
+                "class FrozenAddr(ImmutableStructure):\n    street: String\n")
+
+BAD_NAMES = ["_hidden", "_a", "_Private1", "__two", "_", "kwargs"]
+
+# (member spelling class, style, source of the right-hand side / annotation, default text or None)
+MEMBER_SPELLINGS = [
+    ("field-instance", "ann", "Integer(minimum=1)", None), ("field-instance", "assign", "Integer(minimum=1)", None),
+    ("field-instance", "ann", "String()", "'d'"), ("field-instance", "assign", "String(default='d')", None),
+    ("field-class", "ann", "Integer", None), ("field-class", "assign", "String", None), ("field-class", "ann", "Integer", "3"),
+    ("field-class", "ann", "ShortCode", None), ("field-class", "assign", "Big", None),
+    ("field-subscript", "ann", "Array[Integer]", None), ("field-subscript", "assign", "Array[Integer]", None),
+    ("field-subscript", "assign", "Map[String, Integer]", None), ("field-subscript", "ann", "AnyOf[Integer, String]", None),
+    ("python-type", "ann", "int", None), ("python-type", "ann", "str", "'d'"), ("python-type", "ann", "list", None),
+    ("typing", "ann", "t.List[int]", None), ("typing", "ann", "list[int]", None), ("typing", "ann", "Optional[int]", None),
+    ("typing", "ann", "dict[str, int]", None),
+    ("structure-class", "ann", "Address", None), ("structure-class", "assign", "Address", None),
+    ("structure-class", "ann", "FrozenAddr", None), ("structure-class", "assign", "FrozenAddr", None),
+    ("structure-in-generic", "ann", "Optional[Address]", None), ("structure-in-generic", "ann", "list[Address]", None),
+    ("structure-in-generic", "assign", "Array[Address]", None),
+    ("class-reference", "ann", "ClassReference(Address)", None), ("class-reference", "assign", "ClassReference(Address)", None),
+    ("field-function", "assign", "SmallInt", None),
+    ("constant", "assign", "Constant(3)", None), ("constant", "assign", "Constant('k')", None),
+    ("enum-class", "ann", "Color", None), ("enum-class", "assign", "Enum[Color]", None),
+]
+
+# (label, source before, header, members before, members after)
+NAME_PLACEMENTS = [
+    ("root-alone", "", "class K(Structure):", [], []),
+    ("root-between", "", "class K(Structure):", ["first: String"], ["last: Integer = 3"]),
+    ("root-closed", "", "class K(Structure):", ["first: String"], ["_additional_properties = False"]),
+    ("root-open", "", "class K(Structure):", [], ["_additional_properties = True", "last: Integer = 3"]),
+    ("root-required-listed", "", "class K(Structure):", ["first: String"], ["_required = ['first']"]),
+    ("root-optional-listed", "", "class K(Structure):", ["first: String"], ["_optional = ['first']"]),
+    ("subclass", "class B0(Structure):\n    name: String\n", "class K(B0):", [], []),
+    ("subclass-closed", "class B0(Structure):\n    name: String\n    _additional_properties = False\n", "class K(B0):", [],
+     ["_additional_properties = False"]),
+    ("subclass-multi", "class B0(Structure):\n    name: String\nclass C0(Structure):\n    c: Integer = 1\n", "class K(B0, Mx, C0):",
+     [], ["tail: Boolean = True"]),
+    ("diamond-bottom", "class R(Structure):\n    name: String\nclass L1(R):\n    pass\nclass R1(R):\n    r: Integer = 2\n",
+     "class K(L1, R1):", [], []),
+    ("abstract-child", "", "class K(AbstractStructure):", ["first: String"], []),
+    ("immutable-child", "", "class K(ImmutableStructure):", [], ["last: Integer = 3"]),
+]
+
+GUARD_SETTINGS = [(True, True), (False, True), (True, False), (False, False)]
+
+
+def member_line(name, style, rhs, default):
+    if style == "ann":
+        return "%s: %s" % (name, rhs) + (" = %s" % default if default is not None else "")
+    return "%s = %s" % (name, rhs)
+
+
+def name_cases(tier, seed):
+    """(member class, style, rhs, default, bad name, placement index, guards).  Thorough: the full product with the guards
+    on, plus every guard setting on two placements; quick: every (spelling x name) on three placements and one guard
+    setting in rotation (offset moves with the seed)."""
+    out = []
+    i = seed
+    for sc, style, rhs, default in MEMBER_SPELLINGS:
+        for nm in BAD_NAMES:
+            if tier == "quick":
+                for k in range(3):
+                    out.append((sc, style, rhs, default, nm, (i * 5 + k * 4) % len(NAME_PLACEMENTS),
+                                GUARD_SETTINGS[0] if k else GUARD_SETTINGS[i % 4]))
+                i += 1
+            else:
+                for p in range(len(NAME_PLACEMENTS)):
+                    out.append((sc, style, rhs, default, nm, p, (True, True)))
+                for gs in GUARD_SETTINGS[1:]:
+                    for p in (i % len(NAME_PLACEMENTS), 2):
+                        out.append((sc, style, rhs, default, nm, p, gs))
+                i += 1
+    return out
+
+
+def _run_guarded(src, guards):
+    from typedpy.structures import TypedPyDefaults
+    from typedpy import Structure
+    saved = (TypedPyDefaults.block_unknown_consts, Structure.__dict__.get("_block_non_typedpy_field_assignment", None))
+    try:
+        TypedPyDefaults.block_unknown_consts = bool(guards[0])
+        Structure.set_block_non_typedpy_field_assignment(bool(guards[1]))
+        return run_src(src)
+    finally:
+        TypedPyDefaults.block_unknown_consts = saved[0]
+        if saved[1] is None:
+            if "_block_non_typedpy_field_assignment" in Structure.__dict__:
+                delattr(Structure, "_block_non_typedpy_field_assignment")
+        else:
+            Structure.set_block_non_typedpy_field_assignment(saved[1])
+
+
+def name_src(case, name):
+    sc, style, rhs, default, _, p, _ = case
+    label, pre, header, before, after = NAME_PLACEMENTS[p]
+    body = list(before) + [member_line(name, style, rhs, default)] + list(after)
+    return NAME_PRELUDE + pre + header + "\n" + "".join("    %s\n" % b for b in body)
+
+
+def judge_name_case(case):
+    """The same statement with the member called `okname` must define a class in which okname IS a field (else the member
+    spelling does not declare a field under these settings: skip); with the bad name it must raise TypeError/ValueError
+    and bind no class."""
+    sc, style, rhs, default, nm, p, gs = case
+    label = NAME_PLACEMENTS[p][0]
+    ns0, ex0 = _run_guarded(name_src(case, "okname"), gs)
+    if ex0 is not None or "okname" not in ns0["K"].get_all_fields_by_name():
+        return "skip", None, None, None
+    src = name_src(case, nm)
+    ns, ex = _run_guarded(src, gs)
+    kind = "name-kwargs" if nm == "kwargs" else "name-underscore"
+    replay = {"lattice": "name", "case": list(case), "source": src, "guards": list(gs), "python": PRELUDE + "\n" + src,
+              "member": member_line(nm, style, rhs, default), "placement": label}
+    if ex is None:
+        return ("fail", "C14/fault/%s/%s-%s/accepted" % (kind, sc, style),
+                "class statement with member `%s` (%s, guards %s) was accepted although %r is an invalid field name; "
+                "fields of the class: %s" % (member_line(nm, style, rhs, default), label, gs, nm,
+                                            list(ns["K"].get_all_fields_by_name())), replay)
+    if not isinstance(ex, (TypeError, ValueError)):
+        return ("fail", "C14/fault/%s/%s-%s/raises-%s" % (kind, sc, style, E.exn_name(ex)),
+                "member `%s` raises %r, not a TypeError / ValueError" % (member_line(nm, style, rhs, default), ex), replay)
+    if "K" in ns:
+        return "fail", "C14/fault/%s/%s-%s/class-exists" % (kind, sc, style), "the failed class statement left a class behind", replay
+    return "ok", None, None, None
+
+
+def replay_name(obj):
+    case = tuple(obj["case"][:6]) + (tuple(obj["case"][6]),)
+    print(obj["source"])
+    ns, ex = _run_guarded(obj["source"], case[6])
+    print("guards (block_unknown_consts, block_non_typedpy):", case[6])
+    print("class statement:", "accepted, fields %s" % list(ns["K"].get_all_fields_by_name()) if ex is None else "raises %r" % ex)
+    st, key, what, _ = judge_name_case(case)
+    print("required: the class statement raises TypeError/ValueError and binds no class ->", st, key or "")
+    return 1 if st == "fail" else 0
